@@ -111,7 +111,8 @@ class LennardJonesPotential(MexicanHatPotential):
         float:
             The absolute value of the separation.
         """
-        sigma_over_r_six = (1 + (1 + 4 * potential / self._prefactor) ** 0.5) / 2
+        # Rounding can place the potential marginally below its minimum -prefactor / 4, where the root would be complex.
+        sigma_over_r_six = (1 + max(1 + 4 * potential / self._prefactor, 0.0) ** 0.5) / 2
         return self._characteristic_length / sigma_over_r_six ** (1 / 6)
 
     def _invert_potential_outside_minimum(self, potential: float) -> float:
@@ -131,5 +132,8 @@ class LennardJonesPotential(MexicanHatPotential):
         if potential >= 0.0:
             return float('inf')
         else:
-            sigma_over_r_six = (1 - (1 + 4 * potential / self._prefactor) ** 0.5) / 2
+            sigma_over_r_six = (1 - max(1 + 4 * potential / self._prefactor, 0.0) ** 0.5) / 2
+            if sigma_over_r_six <= 0.0:
+                # The potential is negative but smaller in magnitude than the resolution of the root.
+                return float('inf')
             return self._characteristic_length / sigma_over_r_six ** (1 / 6)
